@@ -153,9 +153,9 @@ var props = map[string]propSpec{
 		{Pkg: "storage/inmem", Fn: "VerifC19InmemStep", Validate: 16, MustReach: []string{"end"}},
 		{Pkg: "storage/file", Fn: "VerifC19FileStep", Validate: 16, MustReach: []string{"end"}},
 		{Pkg: "storage/testing", Fn: "VerifC19StoreOnceStep", Validate: 16, MustReach: []string{"end"}},
-		{Pkg: "storage/inmem", Fn: "VerifC19InmemStep3", Validate: 16, MustReach: []string{"end"}, ThoroughOnly: true, ShardBits: 4},
-		{Pkg: "storage/file", Fn: "VerifC19FileStep3", Validate: 16, MustReach: []string{"end"}, ThoroughOnly: true, ShardBits: 4},
-		{Pkg: "storage/testing", Fn: "VerifC19StoreOnceStep3", Validate: 16, MustReach: []string{"end"}, ThoroughOnly: true, ShardBits: 4},
+		{Pkg: "storage/inmem", Fn: "VerifC19InmemStep3", Loop: 12, Validate: 16, MustReach: []string{"end"}, ThoroughOnly: true, ShardBits: 4},
+		{Pkg: "storage/file", Fn: "VerifC19FileStep3", Loop: 12, Validate: 16, MustReach: []string{"end"}, ThoroughOnly: true, ShardBits: 4},
+		{Pkg: "storage/testing", Fn: "VerifC19StoreOnceStep3", Loop: 12, Validate: 16, MustReach: []string{"end"}, ThoroughOnly: true, ShardBits: 4},
 	}, Assumptions: with("sequential histories only (the concurrent clause for the in-memory back end is not decided)", "ids are path-safe: non-empty, no '/', not '.' or '..' (true of every id the library generates)", "the radix tree and the file system are abstract maps (go-radix Insert/Get/Delete/DeletePrefix/ToMap; os WriteFile/ReadFile/Remove/Open+Readdirnames/OpenFile+Write); listing order is not decided",
 		"inductive step: any history of operations leaves a state that is a finite typed map; the pre-state here holds two arbitrary entries"),
 		Explanation: "inductive step of 'typed key-value map' for the in-memory, file and store-once back ends: arbitrary two-entry pre-state (types, ids, contents symbolic), one arbitrary operation on the real back-end code, compared with a reference map written in the harness"},
